@@ -72,7 +72,15 @@ def C16(run):
                         'an uncaught exception leaves stdout as it was and exits with status 1, arguments are evaluated before the call',
                         'the library (parse/set_value/remove_value/rebuild/contains_error) is abstract in the theorems: they hold for every library behaviour']
 
-PROPS = {'C12': C12, 'C16': C16}
+# ------------------------------------------------------------------------------------------ C17
+def C17(run):
+    run.static()
+    run.props()
+    run.suite('paths', 'paths_corr.py', [run.seed, 2400 if run.tier == 'thorough' else 360], 'PATHS')
+    run.assumptions += ['pathlib facts written as definitions (parts drop "" and ".", keep ".."; parent; absolute right operand wins); the OS resolves ".." physically',
+                        'no symlinks and a case-sensitive file system (outside the model); tree-sitter/parse of the import expression is observed by the suite']
+
+PROPS = {'C12': C12, 'C16': C16, 'C17': C17}
 
 def main():
     ap = argparse.ArgumentParser()
